@@ -39,6 +39,7 @@ PROFILES = {
     "equiv2": prof2("MovesEquiv", 2, [[1, 2], [1, 3], [6, 2], [4, 2], [7, 3]], invariants=["EquivHolds", "ScopeWF"]),
     "equiv_tall": prof2("MovesEquiv", 1, [[9, 2]], invariants=["EquivHolds"]),
     "union3": prof2("MovesUnion", 3, [[1, 3], [3, 6]]),
+    "unionh4": prof2("MovesUnionH", 4, [[1, 3], [3, 1]]),
     "core2": prof("MC_Core", "MovesCore", 2),
     "core3": prof("MC_Core", "MovesCore", 3, srcs=[1, 6]),
     "agg3": prof("MC_Focus", "MovesAgg", 3),
@@ -90,7 +91,7 @@ CHECKS = {
     "C07": dict(
         level="model_checking",
         clauses=GEN_CLAUSES_SPEC | {"errclass"},
-        phases=dict(quick=[dict(profile="union2")], thorough=[dict(profile="union2"), dict(profile="union3")]),
+        phases=dict(quick=[dict(profile="union2"), dict(profile="unionh4")], thorough=[dict(profile="union2"), dict(profile="union3"), dict(profile="unionh4")]),
     ),
     "C08": dict(
         level="model_checking",
@@ -102,7 +103,7 @@ CHECKS = {
     "C02": dict(
         level="model_checking",
         clauses=GEN_CLAUSES_SPEC,
-        phases=dict(quick=[dict(kind="proofs", canary=False), dict(kind="verbnames"), dict(profile="core2"), dict(profile="imm3", opts=dict(pool=True)), dict(profile="wins3"), dict(profile="tall2")],
+        phases=dict(quick=[dict(kind="proofs", canary=False), dict(kind="verbnames"), dict(profile="core2"), dict(profile="imm3", opts=dict(pool=True)), dict(profile="subq4"), dict(profile="wins3"), dict(profile="tall2")],
                     thorough=[dict(kind="proofs", canary=False), dict(kind="verbnames", cols=["a", "b", "c", "x"], keys=["a", "b", "c", "x", "z"], vals=["a", "b", "c", "x", "y"]), dict(profile="core2"), dict(profile="core3"), dict(profile="imm4", opts=dict(pool=True)), dict(profile="wins4"), dict(profile="tall2"), dict(profile="reroot3")]),
     ),
     "C03": dict(
